@@ -5,6 +5,8 @@
 //!   prep     ( objs so se )                      -> ( entry ( (name start len crc) ... ) )     helper for the generator
 //!   members  ( entry )                           -> ( (name start len crc) ... )                helper: the real reader's view
 //!   pack     ( objs so se )                      -> ( render ( r ... ) so se )
+//!   level    ( objs so se env cands )            -> ( render ( r ... ) so se )      packed with SCCACHE_CACHE_ZSTD_LEVEL = env
+//!            env = ( ) unset | ( #bytes ); prep and extract take the same env as 4th / 5th element
 //!   read     ( entry reqs frames specs )         -> ( verdict ... )   one per expanded corruption
 //!   extract  ( objs so se spec )                 -> ( write_err ) | ( miss ) | ( fatal ) | ( panic ) | ( hit so se ( f ... ) )
 //! objs  = ( (name mode content frame [optional present]) ... )     mode = none | number; frame is for the model only
@@ -87,6 +89,18 @@ fn content(x: &Sx) -> Vec<u8> {
             }
         }
         _ => vec![],
+    }
+}
+
+/// the writer's configuration: `( )` = SCCACHE_CACHE_ZSTD_LEVEL unset, `( #bytes )` = set to these bytes.
+/// put_object reads the variable on every call, so it is set around the real packing calls of one case.
+fn apply_env(x: &Sx) {
+    use std::os::unix::ffi::OsStrExt;
+    match x.list().first() {
+        Some(v) if !v.bytes().contains(&0) => {
+            std::env::set_var("SCCACHE_CACHE_ZSTD_LEVEL", std::ffi::OsStr::from_bytes(v.bytes()))
+        }
+        _ => std::env::remove_var("SCCACHE_CACHE_ZSTD_LEVEL"),
     }
 }
 
@@ -279,8 +293,11 @@ fn render(entry: &[u8]) -> Sx {
     Sx::L(out)
 }
 
+static NIL: Sx = Sx::L(Vec::new());
+
 fn main() {
     vh::quiet_panics();
+    std::env::remove_var("SCCACHE_CACHE_ZSTD_LEVEL");
     let leg = std::env::args().nth(1).unwrap_or_default();
     let rt = tokio::runtime::Builder::new_multi_thread()
         .worker_threads(1)
@@ -289,11 +306,15 @@ fn main() {
         .build()
         .unwrap();
     vh::run_lines(|case| match leg.as_str() {
-        "prep" | "pack" => {
+        "prep" | "pack" | "level" => {
             let objs = objs_of(case.arg(0));
             let so = content(case.arg(1).arg(0));
             let se = content(case.arg(2).arg(0));
-            let entry = match catch(|| pack(&objs, &so, &se)) {
+            // prep / level: 4th element = the environment of the writer; pack: the variable is unset
+            apply_env(if leg == "pack" { &NIL } else { case.arg(3) });
+            let packed = catch(|| pack(&objs, &so, &se));
+            apply_env(&NIL);
+            let entry = match packed {
                 Ok(Ok(e)) => e,
                 Ok(Err(_)) => return Sx::L(vec![Sx::sym("write_err")]),
                 Err(_) => return Sx::L(vec![Sx::sym("panic")]),
@@ -373,13 +394,16 @@ fn main() {
             }
             // files with mode 000 etc. are still readable for root; from_objects opens them for reading
             let handle = rt.handle().clone();
+            apply_env(case.arg(4));
             let w = catch(|| rt.block_on(CacheWrite::from_objects(sources, &handle)));
             let mut w = match w {
                 Ok(Ok(w)) => w,
                 Ok(Err(_)) => return Sx::L(vec![Sx::sym("write_err")]),
                 Err(_) => return Sx::L(vec![Sx::sym("panic")]),
             };
-            if w.put_stdout(&so).is_err() || w.put_stderr(&se).is_err() {
+            let stdio_ok = w.put_stdout(&so).is_ok() && w.put_stderr(&se).is_ok();
+            apply_env(&NIL);
+            if !stdio_ok {
                 return Sx::L(vec![Sx::sym("write_err")]);
             }
             let entry = match w.finish() {
